@@ -353,6 +353,9 @@ def run_spec(st, rep, spec):
     rep.stat('packages_in_list_%d' % min(len(libs), 5))
     what = 'flags_from_pkgconfig(%r) with answers %r' % (libs, {
         nm: [bytes.fromhex(b[w]['out'])[:300] for w in 'cl'] for nm, b in spec['pkgs'].items()})
+    if outcome == 'merge-contract':
+        rep.bad('merge-mismatch:inside-flags_from_pkgconfig', '%s: %s' % (what, str(val)[:300]), spec)
+        return
     if not ok:
         rep.stat('error_spec:' + kind)
         if outcome == 'raised' and isinstance(val, st['Err']):
@@ -378,9 +381,6 @@ def run_spec(st, rep, spec):
         rep.bad('success-raised:' + ('PkgConfigError' if isinstance(val, st['Err']) else
                                      'other-exception'),
                 '%s raised %s: %s' % (what, type(val).__name__, str(val)[:300]), spec)
-        return
-    if outcome == 'merge-contract':
-        rep.bad('merge-mismatch:inside-flags_from_pkgconfig', '%s: %s' % (what, str(val)[:300]), spec)
         return
     diffs = [k for k in KEYS if val.get(k, []) != exp.get(k, [])]
     if (outcome == 'flags-contract') != bool(diffs):
